@@ -68,6 +68,7 @@ GATES = {
     "contracts-ran": MONITORS,
     "gf-tables": ["gf-tables", "tables:products", "tables:inverses", "tables:unchanged"],
     "secret-sizes": ["secret:16", "secret:32"],
+    "object-reuse": ["reuse:shareset-object-asked-twice"],
     "exponents": ["exp:0", "exp:1", "exp:2"],
     "passphrases": ["pass:" + p for p in PASS_CLASSES],
     "kn-regions": ["kn:k=1,n=1", "kn:k=1,n>1", "kn:k=2", "kn:k=n", "kn:2<k<n", "kn:n=16", "kn:k=16"],
@@ -647,7 +648,34 @@ def expect_original(ctx, shares, pw, mnemonic, tag):
     if o != ("ok", mnemonic):
         what = "raised " + o[1] if o[0] == "exc" else "returned another mnemonic"
         ctx.violation("sufficient-set-does-not-return-original:" + ("rejected" if o[0] == "exc" else "wrong-mnemonic"), f"{tag}: {len(shares)} shares: {what}", {"op": "recover", "shares": list(shares), "passphrase": pw, "tag": tag})
+    _state["reuse_n"] = _state.get("reuse_n", 0) + 1
+    if _state["reuse_n"] % 4 == 1:
+        reuse_history(ctx, shares, pw, mnemonic, tag)
     return o
+
+
+def reuse_history(ctx, shares, pw, mnemonic, tag):
+    """ONE ShareSet object asked twice: first with another passphrase, then with the right one.  The second
+    answer must still be the original secret - the result may not depend on what the object was asked before."""
+    from buidl.mnemonic import bytes_to_mnemonic
+    from buidl.shamir import Share, ShareSet
+
+    def go():
+        ss = ShareSet([Share.parse(m) for m in shares])
+        first = ss.recover(b"another passphrase " + bytes(pw))
+        second = ss.recover(pw)
+        third = ss.recover(pw)
+        return first, bytes_to_mnemonic(second, ss.share_bit_length), bytes_to_mnemonic(third, ss.share_bit_length)
+
+    with contracts.suspended():
+        o = outcome(go)
+    ctx.count("reuse:shareset-object-asked-twice")
+    ctx.monitor("shareset-object-reuse")
+    case = {"op": "recover", "shares": list(shares), "passphrase": pw, "tag": tag}
+    if o[0] == "exc":
+        ctx.violation("shareset-reuse-raises", f"{tag}: {o[1]}", case)
+    elif o[1][1] != mnemonic or o[1][2] != mnemonic:
+        ctx.violation("recover-depends-on-earlier-call-on-same-object", f"{tag}: second recover() after a call with another passphrase returned a different secret", case)
 
 
 def expect_refusal(ctx, shares, pw, tag, mech):
